@@ -20,6 +20,8 @@ LAWS = {
     # V on a node; bands beyond 3 micron lie outside the table (k = 0)
     'three': (np.array([0.3, 0.55, 3.0]), np.array([8.0, 3.0, 0.4])),
     'nonmono': (np.array([0.2, 0.5, 0.9, 1.5, 3.0, 6.0, 12.0, 40.0]), np.array([5.0, 3.1, 3.6, 1.2, 1.9, 0.7, 1.1, 0.2])),
+    # the table ends exactly on a band wavelength (24 micron = B5): an end node is still inside the tabulated range
+    'edge': (np.array([0.25, 0.55, 1.0, 4.5, 24.0]), np.array([7.0, 3.0, 1.6, 0.5, 0.3])),
 }
 
 
@@ -125,7 +127,7 @@ def build_package(d, name, spec):
 
 
 def make_fitter(md, bands, law, av_range, distance_range_kpc=(1.0, 2.0), theta=None, memmap=True,
-                remove_resolved=False, by_wavelength=False):
+                remove_resolved=False, by_wavelength=False, dunit='kpc'):
     from astropy import units as u
     from sedfitter.fit import Fitter
     theta = np.ones(len(bands)) if theta is None else np.asarray(theta, float)
@@ -134,7 +136,7 @@ def make_fitter(md, bands, law, av_range, distance_range_kpc=(1.0, 2.0), theta=N
     else:
         filt = list(bands)
     return Fitter(filt, theta * u.arcsec, md, extinction_law=law_object(law) if isinstance(law, str) else law,
-                  av_range=list(av_range), distance_range=np.array(distance_range_kpc, float) * u.kpc,
+                  av_range=list(av_range), distance_range=(np.array(distance_range_kpc, float) * u.kpc).to(u.Unit(dunit)),
                   remove_resolved=remove_resolved, use_memmap=memmap)
 
 
